@@ -429,6 +429,27 @@ def _order_relation(ctx, sched, add):
             iv, ev = inner.target.elts[0].id, inner.target.elts[1].id
             lst = ast.unparse(inner.iter.args[0])
             ok_pair = ast.unparse(new) == ev and prev_t == f"{lst}[{iv}-1]"
+        if not ok_pair:
+            # carried predecessor: a local reset before the loop over one
+            # machine list and set to the loop element at the end of each step
+            loops = [n for n in own_nodes(C.node) if isinstance(n, ast.For)]
+            il = loops[-1] if loops else None
+            if il is not None and isinstance(prev, ast.Name):
+                elem = il.target.elts[-1].id if isinstance(il.target, ast.Tuple) else (il.target.id if isinstance(il.target, ast.Name) else None)
+                ds = ctx.flow.defs(C).of(prev.id)
+                vals = [ast.unparse(d[1]) for d in ds if d[0] == "value"]
+                last_stmt = il.body[-1]
+                carried = (
+                    sorted(vals) == sorted(["None", elem]) and isinstance(last_stmt, ast.Assign)
+                    and ast.unparse(last_stmt.targets[0]) == prev.id and ast.unparse(last_stmt.value) == elem
+                    and not any(isinstance(x, ast.Continue) for x in ast.walk(il))
+                )
+                none_init_inside_outer = any(
+                    isinstance(n, (ast.Assign, ast.AnnAssign)) and ast.unparse(n.targets[0] if isinstance(n, ast.Assign) else n.target) == prev.id
+                    and isinstance(n.value, ast.Constant) and n.value.value is None and C.module.parents.get(n) is not C.node
+                    for n in own_nodes(C.node)
+                ) or len(loops) == 1
+                ok_pair = carried and none_init_inside_outer and ast.unparse(new) == elem
         if kind != "ok":
             has_rel = False
             chk.violation("R01.d", cs, g.test, "check_schedule's order relation is not `previous.end_time <= next.start_time`", loc=C.loc(g))
